@@ -310,15 +310,16 @@ outer:
 					packets  int
 				}{}
 				for _, s := range streamFactory.Streams {
-					if s.Flags&streams.StreamFlagsComplete != 0 {
-						continue
-					}
 					firstPacketTs := s.Packets[0].Timestamp
 					lastPacketTs := s.Packets[len(s.Packets)-1].Timestamp
 					if lastPacketTs.Before(tsTimeouted) {
-						timeoutedStreams++
+						if s.Flags&streams.StreamFlagsComplete == 0 {
+							timeoutedStreams++
+						}
 						continue
 					}
+					// a closed tcp connection stays in the assembler until it was idle for the timeout,
+					// later packets of it are still added to this stream
 					streamDuration := lastPacketTs.Sub(firstPacketTs)
 					if worstStreams[0].duration < streamDuration {
 						worstStreams[0].duration = streamDuration
